@@ -366,10 +366,10 @@ def gen_dataset(rng, dadi, mdl, p, theta, nboot, masks=None):
         fs = dadi.Spectrum(d, mask_corners=not unmask_corners)
         for i in extra: fs.mask[i] = True
         return fs
-    # get_godambe re-wraps every bootstrap as Spectrum(boot), which masks the corners: bootstraps always keep their corners masked
-    return drawm(masks.get('data', []), bool(masks.get('data_corners'))), [drawm(masks['boots'][b] if b < len(masks.get('boots', [])) else [], False) for b in range(nboot)]
+    return drawm(masks.get('data', []), bool(masks.get('data_corners'))), [drawm(masks['boots'][b] if b < len(masks.get('boots', [])) else [], bool(masks.get('boot_corners')))
+                                                                               for b in range(nboot)]
 
-MASK_MODES = ['data_only', 'data_boots_same', 'boots_vary', 'model_only', 'model_and_data', 'corners']
+MASK_MODES = ['data_only', 'data_boots_same', 'boots_vary', 'model_only', 'model_and_data', 'corners', 'boot_corners']
 
 def gen_masks(rng, mode, ns, nboot):
     """an explicit mask pattern (lists of entry indices of a spectrum with ns+1 entries) in which model, data and bootstraps differ:
@@ -377,13 +377,14 @@ def gen_masks(rng, mode, ns, nboot):
     data_boots_same: data and every bootstrap mask the same entries, the model only its corners; boots_vary: every bootstrap its own set
     (some none); model_only: the model masks entries that data and bootstraps do not; model_and_data: both, partially overlapping,
     bootstraps like the data or on their own; corners: the model does not mask its (positive) corners while data/bootstraps do, or the
-    data does not mask its corners while the model does, or both unmasked (bootstraps always masked: Spectrum(boot))."""
+    data does not mask its corners while the model does, or both unmasked (bootstraps masked); boot_corners: the model does not mask its
+    corners and the bootstraps do not either (e.g. drawn with data.sample() from data with visible corners), data with or without."""
     interior = list(range(1, ns))
     def pick(kmax=3, low=False):
         k = int(rng.integers(1, kmax + 1))
         if low: return list(range(1, 1 + k))
         return sorted(int(i) for i in rng.choice(interior, size=k, replace=False))
-    m = dict(mode=mode, data=[], boots=[[] for _ in range(nboot)], model=[], model_corners=False, data_corners=False)
+    m = dict(mode=mode, data=[], boots=[[] for _ in range(nboot)], model=[], model_corners=False, data_corners=False, boot_corners=False)
     if mode == 'data_only':
         m['data'] = pick(low=bool(rng.random() < 0.5))
     elif mode == 'data_boots_same':
@@ -403,6 +404,8 @@ def gen_masks(rng, mode, ns, nboot):
         r = int(rng.integers(3))
         m['model_corners'] = r in (0, 2); m['data_corners'] = r in (1, 2)
         if rng.random() < 0.4: m['data'] = pick(2)
+    elif mode == 'boot_corners':
+        m['model_corners'] = True; m['boot_corners'] = True; m['data_corners'] = bool(rng.random() < 0.6)
     else:
         raise KeyError(mode)
     return m
@@ -553,7 +556,7 @@ def gen_pipeline_case(rng, dadi, api=None, **force):
     if mask_mode != 'none':
         # enough entries that 2-5 masked ones leave the information matrices well determined
         ncell = int(rng.integers(11, 17))
-        mc = bool(mask_mode == 'corners')
+        mc = bool(mask_mode in ('corners', 'boot_corners'))
     mdl = gen_model(rng, dadi, nparam=force.get('nparam'), ncell=ncell if mask_mode != 'none' else None, corners=bool(mc))
     n = mdl['n']
     api = api or APIS[int(rng.integers(len(APIS)))]
@@ -772,11 +775,22 @@ def pipeline_case(chk, ctx, case):
                 cmp([res[0]], f(10)); cmp([res[1]], f(9))
             if ok: chk.k_ok('assembly:' + api)
             else: chk.k_bad('assembly:' + api, small, ret, out[:400], worst)
+    # ---- the spectra whose likelihood was differentiated: the data as given (args of get_hess), every bootstrap as get_grad received it
+    seen = [a[0] for _, _, a in spy.grads if len(a) >= 1]
+    remasked = {}
+    if not hess_only and len(seen) == len(boots):
+        for b, (given, got) in enumerate(zip(boots, seen)):
+            gm, sm_ = np.ma.getmaskarray(given), np.ma.getmaskarray(got)
+            out = drv.ask('c19.bootmask %s' % bits(gm))
+            if out == 'ok ' + bits(sm_): chk.k_ok('bootstrap_mask')
+            else: chk.k_bad('bootstrap_mask', small, bits(sm_), out, None)
+            if not np.array_equal(gm, sm_): remasked[b] = bits(sm_)
+    case = dict(case); case['_remasked'] = remasked
     # ---- the likelihood that was differentiated (K): Inference.ll on these spectra vs the generated expression / mask analysis
     try:
         mfs = func(p_in, None, None)
         ll_k_case(chk, ctx, small, mfs if not multinom else theta_opt * mfs, data, 'data')
-        if boots: ll_k_case(chk, ctx, small, mfs if not multinom else theta_opt * mfs, dadi.Spectrum(boots[-1]), 'bootstrap')
+        if seen: ll_k_case(chk, ctx, small, mfs if not multinom else theta_opt * mfs, seen[-1], 'bootstrap')
     except Exception as e:
         chk.k_bad('ll', small, repr(e), None, None)
     # ---- L3: closed forms of the linear Poisson model within O(eps^2)
@@ -832,7 +846,7 @@ def l3_closed_forms(chk, ctx, case, small, key0, B, data, boots, func, p_in, f_i
     if not np.all(central):
         chk.stat('closed_form_skipped_one_sided'); return
     steps = np.array([float(prop_rule(float(v), eps)[0]) for v in seen])
-    def crit(fd, fd2, exact, floor, what, key):
+    def crit(fd, fd2, exact, floor, what, key, fullkey=None, extra=''):
         """|fd - exact| <= 1.25 * (4/3)|fd - fd2| + 0.05 eps^2 |exact| + floor   (elementwise)"""
         fd = np.asarray(fd, dtype=float); fd2 = np.asarray(fd2, dtype=float); exact = np.asarray(exact, dtype=float)
         if fd.shape != exact.shape:
@@ -841,8 +855,8 @@ def l3_closed_forms(chk, ctx, case, small, key0, B, data, boots, func, p_in, f_i
         err = np.abs(fd - exact)
         if not np.all(np.isfinite(fd)) or np.any(err > bound):
             k = int(np.argmax(err - bound))
-            chk.fail(key0 + ':' + key, '%s, eps=%g: finite-difference %s differs from the closed form of the linear Poisson model beyond O(eps^2): entry %d is %r, closed form %r, '
-                     'estimated truncation %r' % (api, eps, what, k, float(fd.ravel()[k]), float(exact.ravel()[k]), float((4.0 / 3.0) * np.abs(fd - fd2).ravel()[k])), small)
+            chk.fail(fullkey or (key0 + ':' + key), '%s, eps=%g: finite-difference %s differs from the closed form of the linear Poisson model beyond O(eps^2): entry %d is %r, closed form %r, '
+                     'estimated truncation %r%s' % (api, eps, what, k, float(fd.ravel()[k]), float(exact.ravel()[k]), float((4.0 / 3.0) * np.abs(fd - fd2).ravel()[k]), extra), small)
             return False
         return True
     floorH = 256 * U * L / np.outer(steps / 2, steps / 2)
@@ -851,8 +865,13 @@ def l3_closed_forms(chk, ctx, case, small, key0, B, data, boots, func, p_in, f_i
     okg = True
     if not hess_only:
         floorg = 256 * U * L / (steps / 2)
+        rem = case.get('_remasked') or {}
         for b, (g, g2, ge) in enumerate(zip(grads, grads2, gx)):
-            if not crit(g, g2, ge, floorg, 'score of bootstrap %d' % b, 'score_closed_form'): okg = False; break
+            # a bootstrap whose own mask was replaced before its likelihood was taken: one stable key for that cause
+            fk = 'get_godambe:bootstrap_corners_remasked:score_closed_form' if b in rem else None
+            ex = ('; the bootstrap was given with mask %s but its likelihood was taken with mask %s (the closed form sums over the entries masked in neither the model nor the '
+                  'bootstrap as given, as H does for the data)' % (bits(np.ma.getmaskarray(boots[b])), rem[b])) if b in rem else ''
+            if not crit(g, g2, ge, floorg, 'score of bootstrap %d' % b, 'score_closed_form', fullkey=fk, extra=ex): okg = False; break
         chk.stat('closed_form_scores', len(grads))
     if not (okH and okg): return
     if api == 'get_godambe' and hess_only: return
